@@ -15,7 +15,7 @@ from hidv.oblig import Result, DISCHARGED, FAILED, UNDECIDED, ERROR
 from hidv.sphinx import sem, reader
 from hidv.sphinx.sem import State, Leaf, Ctx, Engine
 from .symint import SymInt, Session
-from .vcg import AExpr, ABlock, Opaque, make_codegen, drive, render, ChildInfo
+from .vcg import AExpr, ABlock, Opaque, make_codegen, drive, render, ChildInfo, SPAN
 from . import spec as SP
 
 
@@ -33,6 +33,12 @@ class ChildEvent:
         a = z3.Int('a!hv')
         prot = z3.And(self.lo <= a, a < c.stack_end)
         return z3.Lambda([a], z3.If(prot, z3.Select(mem, a), z3.Select(self.fresh_mem, a)))
+
+
+def root_cause(leaf):
+    while leaf.kind == 'bot' and leaf.rewinds and leaf.rewinds[0][1].kind == 'bot':
+        leaf = leaf.rewinds[0][1]
+    return leaf
 
 
 class LemmaCtx(Ctx):
@@ -85,6 +91,8 @@ class Lemma:
         self.results = []
         self._nsym = 0
         self.functions = set()
+        self.exit_labels = {}
+        self.glue_may_defeat = False      # the construct under test is itself a defeat primitive (!is_defeat, !truth_is_defeat)
 
     def close(self):
         self.session.__exit__(None, None, None)
@@ -118,8 +126,8 @@ class Lemma:
         if t == DataType.BOOL:
             raise ValueError('bool literals are concrete')
         if t == DataType.BYTE:
-            return ast.ByteValue(self.sym('K' + name, 0, 255), None)
-        return ast.IntValue(self.sym('K' + name), None)      # any Python integer: the assembler wraps the decimal
+            return ast.ByteValue(self.sym('K' + name, 0, 255), SPAN)
+        return ast.IntValue(self.sym('K' + name), SPAN)      # any Python integer: the assembler wraps the decimal
 
     def local(self, name, t=DataType.INT, const=False):
         size = self.size_of(t)
@@ -134,7 +142,7 @@ class Lemma:
         if t == DataType.BOOL:      # I-bool for the slot
             cell = z3.Select(self.entry.mem, self.entry.regs['fp'] - X.z3())
             self.ctx.pre += [cell >= 0, cell <= 1]
-        return ast.VariableLookup(var, None)
+        return ast.VariableLookup(var, SPAN)
 
     def glob(self, name, t=DataType.INT):
         """non-const global scalar (volatile in the sense of eval_expr)"""
@@ -150,7 +158,7 @@ class Lemma:
         if t == DataType.BOOL:
             cell = z3.Select(self.entry.mem, L)
             self.ctx.pre += [cell >= 0, cell <= 1]
-        return ast.VariableLookup(var, None)
+        return ast.VariableLookup(var, SPAN)
 
     def var_address(self, var):
         kind, where, size, t = self.vars[var.name]
@@ -186,18 +194,41 @@ class Lemma:
         ev = ChildEvent(info, v, pre, fresh_mem, lo, None, c)
         st2.mem = ev.havoc(st.mem)
         st2.trace = st.trace + (('child', info, ev),)
-        leaves = [(extra, 'normal', None, st2)]
-
         def abnormal(kind):
             e2 = ChildEvent(info, None, pre, fresh_mem, lo, kind, c)
             s3 = st2.copy(); s3.trace = st.trace + (('child', info, e2),)
             return s3
-        leaves.append(([], 'term', 'child', abnormal('term')))
-        if self.may_defeat:
+        leaves = []
+        may_defeat = self.may_defeat
+        if info.kind == 'expr':
+            leaves.append((extra, 'normal', None, st2))
+            leaves.append(([], 'term', 'child', abnormal('term')))
+        else:
+            # block child (DESIGN Appendix B): only the exits in its mode set occur (plus `continue`, which exit_modes does not track)
+            modes = node.exit_modes()
+            if ExitMode.NONE in modes:
+                leaves.append(([], 'normal', None, st2))
+            if ExitMode.LOOP in modes:
+                leaves.append(([], 'term', 'child', abnormal('term')))
+            if ExitMode.RETURN in modes:
+                # the child executed a return statement: its own lemma shows ap/defeat are restored and control goes to RA
+                leaves.append(([], 'child-return', None, abnormal('return')))
+            for kind, want, idx in (('break', ExitMode.BREAK in modes, 0), ('continue', node.may_continue, 1)):
+                if want:
+                    if info.loop is None:
+                        raise sem.EngineError(f'abstract block with {kind} outside a loop')
+                    s3 = abnormal(kind)
+                    # contract of break/continue (their own lemma): ap back at the loop's restore point, defeat = loop_defeat
+                    s3.regs['ap'] = info.loop[2] if info.loop[2] is not None else self.entry.regs['ap']
+                    s3.regs['defeat'] = info.loop[3] if info.loop[3] is not None else self.entry.regs['defeat']
+                    leaves.append(([], 'jump', info.loop[idx], s3))
+            may_defeat = ExitMode.DEFEAT in modes
+        if may_defeat:
             if info.effective_defeat == stdlib.halt:
                 leaves.append(([], 'bot', None, abnormal('defeat')))
             else:
                 s3 = abnormal('defeat')
+                # defeat may be raised from an arbitrarily deep callee: fp and ap are whatever they are there
                 s3.regs['fp'] = c.fresh('fp_d'); s3.regs['ap'] = c.fresh('ap_d')
                 leaves.append(([], 'goto', s3.regs['defeat'], s3))
         return leaves
@@ -288,21 +319,40 @@ class Lemma:
                     if leaf.kind != 'bot':
                         raise SP.Mismatch(f'if the continuation halted, the emitted code would {leaf.kind} {leaf.tgt} instead of being defeat')
                     continue
-                todo = [list(leaf.cond)]
-                while todo:
-                    cond = todo.pop()
-                    n += 1
-                    S = SP.SpecRun(self, leaf, cond)
+                # a defeat leaf reached after rewinding: the construct as a whole is defeat (everything on the way is discarded by
+                # the machine).  It is justified if the final halting path *or* one of the halting paths that were rewound on
+                # the way simulates a run of the source semantics that ends in defeat (its condition is part of this leaf's).
+                cands = [leaf]
+                if leaf.kind == 'bot':
+                    def causes(l):
+                        for _, c_ in l.rewinds:
+                            if c_.kind == 'bot' and c_.tag is None:
+                                cands.append(c_); causes(c_)
+                    causes(leaf)
+                first_err = None
+                for cand in cands:
                     try:
-                        try:
-                            out = SP.Out('normal', program(S))
-                        except SP.Abrupt as a:
-                            out = a.out
-                        self.match(S, leaf, out, compare)
-                    except SP.Split as s:
-                        for cc in (s.c, z3.Not(s.c)):
-                            if smt.satisfiable(self.ctx.all_pre() + cond + [cc]):
-                                todo.append(cond + [cc])
+                        todo = [list(leaf.cond if cand is leaf else cand.cond)]
+                        while todo:
+                            cond = todo.pop()
+                            n += 1
+                            S = SP.SpecRun(self, cand, cond)
+                            try:
+                                try:
+                                    out = SP.Out('normal', program(S))
+                                except SP.Abrupt as a:
+                                    out = a.out
+                                self.match(S, cand, out, compare)
+                            except SP.Split as s:
+                                for cc in (s.c, z3.Not(s.c)):
+                                    if smt.satisfiable(self.ctx.all_pre() + cond + [cc]):
+                                        todo.append(cond + [cc])
+                        first_err = None
+                        break
+                    except SP.Mismatch as m:
+                        first_err = first_err or m
+                if first_err is not None:
+                    raise first_err
         except SP.Mismatch as m:
             self.add(clause, FAILED, t0, props, {'message': m.why, 'model': smt.model_to_json(m.info.get('model')),
                                                   'formula': 'every leaf of the emitted code simulates the reference semantics',
@@ -331,10 +381,23 @@ class Lemma:
                 raise SP.Mismatch(f'child entered a terminal state, emitted code continued: {k} {leaf.tgt}')
             if out.what == 'defeat' and k not in ('bot', 'ijump'):
                 raise SP.Mismatch(f'child reached defeat, emitted code continued: {k} {leaf.tgt}')
+        elif out.kind == 'child-term':
+            if not (k == 'term' and leaf.tgt == 'child'):
+                raise SP.Mismatch(f'child entered a terminal state, emitted code continued: {k} {leaf.tgt}')
+        elif out.kind == 'child-return':
+            if k != 'child-return':
+                raise SP.Mismatch(f'child returned from the function, emitted code continued: {k} {leaf.tgt}')
         elif out.kind == 'defeat':
             if k not in ('bot', 'ijump'):
                 raise SP.Mismatch(f'source semantics reaches defeat, emitted code does {k} {leaf.tgt}')
-        elif out.kind in ('return', 'break', 'continue', 'exit'):
+        elif out.kind in ('break', 'continue', 'loop-back'):
+            want = self.exit_labels.get(out.kind)
+            if not (k == 'exit' and leaf.tgt == want):
+                raise SP.Mismatch(f'source semantics does {out.kind} (label {want}), emitted code does {k} {leaf.tgt}')
+            compare(S, leaf, out)
+        elif out.kind == 'return':
+            if k != 'ijump':
+                raise SP.Mismatch(f'source semantics returns from the function, emitted code does {k} {leaf.tgt}')
             compare(S, leaf, out)
         else:
             raise SP.Mismatch(f'unexpected outcome {out.kind}')
@@ -362,9 +425,17 @@ class Lemma:
     def nobot(self, leaves, props, clause='NOBOT'):
         """C03: outside defeat context the emitted code has no defeat leaf of its own"""
         t0 = time.time()
-        bad = [l for l in leaves if l.kind == 'bot' and l.tag is None]
-        if self.may_defeat:
-            return True
+        def child_defeated(l):
+            chain = [l]
+            def causes(x):
+                for _, c_ in x.rewinds:
+                    if c_.kind == 'bot' and c_.tag is None:
+                        chain.append(c_); causes(c_)
+            causes(l)
+            return any(x.st.trace and x.st.trace[-1][0] == 'child' and x.st.trace[-1][2].abnormal == 'defeat' for x in chain)
+        # a defeat leaf is legitimate only as the direct consequence of a child that reached defeat (which the context
+        # rules allow only in defeat context); a halt of the glue itself on the committed timeline is a violation
+        bad = [l for l in leaves if l.kind == 'bot' and l.tag is None and not child_defeated(l) and not self.glue_may_defeat]
         if bad:
             o = bad[0]
             s = z3.Solver(); s.add(*self.ctx.all_pre()); s.add(*o.cond)
@@ -448,3 +519,63 @@ class Lemma:
             self.prove_all('CHILDPRE', [s for s in eng.safety if 'precondition' in s[1]], P['SIM'])
         self.cover(leaves, list(want_cover), P['SIM'])
         return self.results
+
+    # ---- blocks ------------------------------------------------------------------------------------------------------------
+    def enclosing_loop(self):
+        """the construct under test sits inside a loop of the enclosing code: break/continue leave through these labels"""
+        cg = self.cg
+        cg.loop_info.append(generator.LoopInfo(cg.stack, asm.LabelRef('continue_ext'), asm.LabelRef('break_ext'), cg.effective_defeat))
+        self.exit_labels.update({'break': 'break_ext', 'continue': 'continue_ext'})
+
+    def check_block(self, block, P, want_cover=(('exit', '<end>'),)):
+        cg = self.cg
+        depth = len(cg.local_vars.maps); n_arr = len(cg.allocated_arrays); n_loop = len(cg.loop_info)
+        out = self.guarded_emit(lambda: cg.gen_block(block), P.get('NOERR', ('C10',)))
+        if out is None:
+            return self.results
+        instrs, lines, _ = out
+        self.lines = lines
+        t0 = time.time(); book = []
+        if not (cg.stack == self.entry_stack): book.append('self.stack not restored after the block')
+        if len(cg.allocated_arrays) != n_arr: book.append('allocated_arrays not restored after the block')
+        if len(cg.local_vars.maps) != depth: book.append('scope chain not restored after the block')
+        if len(cg.loop_info) != n_loop: book.append('loop_info not restored after the block')
+        self.add('BOOK', FAILED if book else DISCHARGED, t0, P['SIM'], {'message': '; '.join(book), 'formula': 'compile-time bookkeeping restored after gen_block',
+                 'replay': {'reproduced': True, 'how': 'observed on the real CodeGen object after the real method'}}, backend='harness')
+        if isinstance(block, ast.LoopBlock):
+            lbl = [i.label.label_name for i in instrs if isinstance(i, asm.Label) and i.label.label_name.startswith('loop_')]
+            self.ctx.cut_labels = set(lbl[:1]); self.exit_labels['loop-back'] = lbl[0] if lbl else None
+        self.finalize_headroom()
+        eng, leaves = self.run_engine(lines)
+        self.last_leaves = leaves
+
+        def compare(S, leaf, o):
+            S.sync(leaf.st, 'at exit')
+        self.simulate(leaves, lambda S: S.exec_block(block), compare, P['SIM'])
+        self.inv_at_exit([l for l in leaves if l.kind == 'exit'], P['INV'])
+        self.nobot(leaves, P['NOBOT'])
+        if not self.unchecked:
+            self.prove_all('SAFE', eng.safety, P['SAFE'])
+        else:
+            self.prove_all('CHILDPRE', [s for s in eng.safety if 'precondition' in s[1]], P['SIM'])
+        self.modes_respected(block, leaves, P.get('MODES', ('C16',)))
+        self.cover(leaves, list(want_cover), P['SIM'])
+        return self.results
+
+    def modes_respected(self, block, leaves, props, clause='MODES'):
+        """C16: every way the emitted code can end is allowed by the *real* exit_modes() of the block"""
+        t0 = time.time()
+        try:
+            modes = block.exit_modes()
+        except Exception as e:
+            self.add(clause, UNDECIDED, t0, props, {'message': f'exit_modes raised {e!r}'}); return
+        bad = []
+        for l in leaves:
+            if l.tag is not None: continue
+            if l.kind == 'exit' and l.tgt == '<end>' and ExitMode.NONE not in modes: bad.append('falls through although NONE is not an exit mode')
+            if l.kind == 'exit' and l.tgt == self.exit_labels.get('break') and ExitMode.BREAK not in modes: bad.append('break although BREAK is not an exit mode')
+            if l.kind in ('child-return',) and ExitMode.RETURN not in modes: bad.append('returns although RETURN is not an exit mode')
+            if l.kind in ('bot',) and ExitMode.DEFEAT not in modes: bad.append('defeat although DEFEAT is not an exit mode')
+            if l.kind == 'term' and l.tgt == 'child' and ExitMode.LOOP not in modes: bad.append('terminal state although LOOP is not an exit mode')
+        self.add(clause, FAILED if bad else DISCHARGED, t0, props, {'formula': f'leaf kinds of the emitted code are within exit_modes() = {modes!r}',
+                                                                    'message': '; '.join(sorted(set(bad)))})
